@@ -560,6 +560,8 @@ def main():
                 trusted_base=props.TRUSTED_BASE + meta.get("trusted", []),
                 explanation=meta.get("explanation", ""),
                 functions_under_contract=functions,
+                # (a contract names ONE target; the functions it reaches and proves clauses about are listed per contract file)
+                functions_under_contract_per_contract_file={m: (sys.modules[m].__doc__ or "").strip() for m in sorted({REGISTRY[n].__module__ for n in names if not REGISTRY[n].canary})},
                 contracts={n: dict(target=REGISTRY[n].target, stubs=REGISTRY[n].stubs, **per_contract.get(n, {})) for n in names if not REGISTRY[n].canary},
                 shapes=len(jobs), paths=paths, instances_by_backend=by_backend, solver_s=round(solver_s, 3),
                 stub_evaluations=stub_calls,
